@@ -1464,6 +1464,236 @@ def r16_13(rep: Report, idx: Index) -> None:
     rep.extra['count_driven_parser_loops'] = n
 
 
+def r16_14(rep: Report, idx: Index) -> None:
+    """R16.14  an attribute read from an object that the same handler function constructed exists when it is
+    read: it is a method / property / class-level value of the class or a base, a key of DEFAULT_VALUES, a
+    keyword given to the constructor, assigned on every path of __init__ (also through apply_defaults with a
+    literal dict), or assigned before the read on every path - directly, or by a method called on the object
+    whose own paths all assign it (method summaries).  An attribute that only some branch of a set-up
+    method assigns (`if use_base_urls: self.baseURL = ..`) and that the handler then reads unconditionally
+    is an AttributeError, i.e. a 500, for the requests that take the other branch."""
+    rid = 'R16.14'
+
+    def resolve(rel: str, name: str):
+        """ClassInfo of a class name as the module `rel` sees it (defined there or imported)"""
+        m = idx.by_rel.get(rel)
+        if m is None:
+            return None
+        if name in m.classes:
+            return m.classes[name]
+        q = m.imports.get(name)
+        return idx.classes.get(q) if q else None
+
+    def lineage(ci) -> list:
+        out, todo = [], [ci]
+        while todo:
+            c = todo.pop(0)
+            if c in out:
+                continue
+            out.append(c)
+            todo.extend(c.bases)
+        return out
+
+    def static_attrs(ci) -> set[str] | None:
+        """names every instance has; None when the class or a base outside the repository can provide
+        attributes dynamically"""
+        out: set[str] = set()
+        for k in lineage(ci):
+            if any(b.split('.')[-1] not in ('object', 'ABC', 'Generic', 'Protocol', 'NamedTuple', 'MutableMapping', 'Mapping',
+                                            'Sequence', 'MutableSequence', 'Iterator', 'Iterable') for b in k.ext_bases):
+                return None
+            for st in k.node.body:
+                if isinstance(st, (ast.FunctionDef, ast.AsyncFunctionDef)):
+                    if st.name in ('__getattr__', '__getattribute__'):
+                        return None
+                    out.add(st.name)
+                elif isinstance(st, ast.AnnAssign) and isinstance(st.target, ast.Name):
+                    if st.value is not None or any(b.endswith('NamedTuple') for b in k.ext_bases) \
+                            or any('dataclass' in norm(d) for d in k.node.decorator_list):
+                        out.add(st.target.id)
+                    if st.target.id == 'DEFAULT_VALUES' and isinstance(st.value, ast.Dict):
+                        out |= {k_.value for k_ in st.value.keys if isinstance(k_, ast.Constant)}
+                elif isinstance(st, ast.Assign):
+                    for t in st.targets:
+                        if isinstance(t, ast.Name):
+                            out.add(t.id)
+                            if t.id == 'DEFAULT_VALUES' and isinstance(st.value, ast.Dict):
+                                out |= {k_.value for k_ in st.value.keys if isinstance(k_, ast.Constant)}
+            init = next((m for m in k.node.body if isinstance(m, ast.FunctionDef) and m.name == '__init__'), None)
+            if init is not None:
+                out |= must_assign_self(k, init)
+        return out
+    summaries: dict[int, frozenset] = {}
+
+    def must_assign_self(c, fn: ast.FunctionDef, stack: tuple = ()) -> frozenset:
+        if id(fn) in summaries:
+            return summaries[id(fn)]
+        if fn.name in stack:
+            return frozenset()
+        methods = {}
+        for k in reversed(lineage(c)):
+            for m in k.node.body:
+                if isinstance(m, ast.FunctionDef):
+                    methods[m.name] = m
+
+        def gen(st):
+            out = []
+            tg = st.targets if isinstance(st, ast.Assign) else (
+                [st.target] if isinstance(st, (ast.AnnAssign, ast.AugAssign)) and getattr(st, 'value', None) is not None else [])
+            for t in tg:
+                for x in ([t] if not isinstance(t, (ast.Tuple, ast.List)) else t.elts):
+                    if isinstance(x, ast.Attribute) and isinstance(x.value, ast.Name) and x.value.id == 'self':
+                        out.append(x.attr)
+            if not isinstance(st, (ast.If, ast.While, ast.For, ast.With, ast.Try)):
+                for call in ast.walk(st):
+                    if isinstance(call, ast.Call) and isinstance(call.func, ast.Attribute) \
+                            and isinstance(call.func.value, ast.Name) and call.func.value.id == 'self':
+                        if call.func.attr == 'apply_defaults' and call.args:
+                            d = call.args[0]
+                            if isinstance(d, ast.Name):
+                                ds = [a.value for a in ast.walk(fn) if isinstance(a, ast.Assign) and norm(a.targets[0]) == d.id]
+                                d = ds[0] if len(ds) == 1 else None
+                            if isinstance(d, ast.Dict):
+                                out.extend(k_.value for k_ in d.keys if isinstance(k_, ast.Constant))
+                        elif call.func.attr in methods and call.func.attr != fn.name:
+                            out.extend(must_assign_self(c, methods[call.func.attr], stack + (fn.name,)))
+            return out
+        exits: list[frozenset] = []
+
+        def on_exit(kind, st, s_):
+            if kind in ('return', 'fall'):
+                exits.append(frozenset(s_))
+        Flow(MustFacts(gen), on_exit=on_exit).run(fn, frozenset())
+        res = frozenset.intersection(*exits) if exits else frozenset()
+        summaries[id(fn)] = res
+        return res
+    def conditional_assigns(c, m: ast.FunctionDef) -> list[tuple[str, str]]:
+        """(parameter, attribute) for `if <parameter>: self.<attribute> = ..` at the top level of a method: the
+        attribute exists after the call whenever the argument given for that parameter is true"""
+        params = [a.arg for a in m.args.args[1:]] + [a.arg for a in m.args.kwonlyargs]
+        out = []
+        for st in m.body:
+            if isinstance(st, ast.If) and isinstance(st.test, ast.Name) and st.test.id in params:
+                for x in ast.walk(ast.Module(body=st.body, type_ignores=[])):
+                    if isinstance(x, ast.Assign):
+                        for t in x.targets:
+                            if isinstance(t, ast.Attribute) and isinstance(t.value, ast.Name) and t.value.id == 'self' \
+                                    and x in st.body:
+                                out.append((st.test.id, t.attr))
+        return out
+
+    def guards_of(node: ast.AST, fn: ast.AST) -> set[str]:
+        """conjuncts of the `if` tests whose true branch contains `node`"""
+        out: set[str] = set()
+        child = node
+        for a in ancestors(node):
+            if isinstance(a, ast.If) and any(child is b or any(child is y for y in ast.walk(b)) for b in a.body):
+                vals = a.test.values if isinstance(a.test, ast.BoolOp) and isinstance(a.test.op, ast.And) else [a.test]
+                out |= {norm(v) for v in vals}
+            if a is fn:
+                break
+            child = a
+        return out
+    n = 0
+    for rel in rep.repo.py_files('dashlive/server/requesthandler'):
+        tree = rep.repo.tree(rel)
+        for fn in [x for x in ast.walk(tree) if isinstance(x, (ast.FunctionDef, ast.AsyncFunctionDef))]:
+            built: dict = {}
+            ctor_sites: dict[str, list] = {}
+            for a in ast.walk(fn):
+                if isinstance(a, (ast.Assign, ast.AnnAssign)) and getattr(a, 'value', None) is not None:
+                    tg = a.targets[0] if isinstance(a, ast.Assign) and len(a.targets) == 1 else getattr(a, 'target', None)
+                    if isinstance(tg, ast.Name):
+                        ctor_sites.setdefault(tg.id, []).append(a.value)
+            for name, vals in ctor_sites.items():
+                stores = [x for x in ast.walk(fn) if isinstance(x, ast.Name) and x.id == name and isinstance(x.ctx, ast.Store)]
+                if len(stores) != len(vals):
+                    continue                # bound by a loop, a with, an unpacking ... as well
+                cis = []
+                for v_ in vals:
+                    cn = call_name(v_) if isinstance(v_, ast.Call) else None
+                    ci = resolve(rel, cn) if cn and '.' not in cn and cn[:1].isupper() else None
+                    if ci is None or any(k.arg is None for k in v_.keywords):
+                        cis = []
+                        break
+                    cis.append((ci, {k.arg for k in v_.keywords}))
+                if cis and len({c_.qual for c_, _k in cis}) == 1:
+                    built[name] = (cis[0][0], set.intersection(*[k for _c, k in cis]))
+            if not built:
+                continue
+            info = {}
+            for v, (c, kws) in built.items():
+                sa_ = static_attrs(c)
+                if sa_ is not None:
+                    info[v] = (c, sa_ | kws)
+            if not info:
+                continue
+
+            def gen(st, _info=info):
+                out = []
+                tg = st.targets if isinstance(st, ast.Assign) else (
+                    [st.target] if isinstance(st, (ast.AnnAssign, ast.AugAssign)) and getattr(st, 'value', None) is not None else [])
+                for t in tg:
+                    if isinstance(t, ast.Attribute) and isinstance(t.value, ast.Name) and t.value.id in _info \
+                            and not isinstance(st, ast.AugAssign):
+                        out.append(f'{t.value.id}.{t.attr}')
+                if not isinstance(st, (ast.If, ast.While, ast.For, ast.With, ast.Try)):
+                    for call in ast.walk(st):
+                        if isinstance(call, ast.Call) and isinstance(call.func, ast.Attribute) \
+                                and isinstance(call.func.value, ast.Name) and call.func.value.id in _info:
+                            c = _info[call.func.value.id][0]
+                            m = next((m_ for k in lineage(c) for m_ in k.node.body
+                                      if isinstance(m_, ast.FunctionDef) and m_.name == call.func.attr), None)
+                            if m is not None:
+                                out.extend(f'{call.func.value.id}.{a_}' for a_ in must_assign_self(c, m))
+                                # attributes the method assigns when one of its arguments is true
+                                names = [a_.arg for a_ in m.args.args[1:]]
+                                given = {k.arg: norm(k.value) for k in call.keywords if k.arg}
+                                given.update({names[i]: norm(a_) for i, a_ in enumerate(call.args) if i < len(names)})
+                                for par, attr in conditional_assigns(c, m):
+                                    if par in given:
+                                        out.append(f'{call.func.value.id}.{attr}?{given[par]}')
+                return out
+            reads: list = []
+
+            def on_stmt(st, s_, _info=info, _reads=reads):
+                if isinstance(st, (ast.While, ast.For, ast.With, ast.Try)):
+                    return
+                scope = [st.test] if isinstance(st, ast.If) else [st]
+                for root in scope:
+                    for x in ast.walk(root):
+                        if isinstance(x, ast.Attribute) and isinstance(x.ctx, ast.Load) and isinstance(x.value, ast.Name) \
+                                and x.value.id in _info and x.attr not in _info[x.value.id][1] \
+                                and f'{x.value.id}.{x.attr}' not in s_:
+                            conds = {f_.split('?', 1)[1] for f_ in s_ if f_.startswith(f'{x.value.id}.{x.attr}?')}
+                            if conds & guards_of(x, fn):
+                                continue        # assigned when <cond>, read under the same <cond>
+                            par = getattr(x, '_parent', None)
+                            if isinstance(par, ast.Call) and par.func is x and x.attr in ('add_field', 'apply_defaults', 'toJSON'):
+                                continue
+                            _reads.append((x, st))
+            from ..flow import each as _each
+            Flow(MustFacts(gen), on_stmt=on_stmt).run(fn, frozenset())
+            cls_name = next((a.name for a in ancestors(fn) if isinstance(a, ast.ClassDef)), None)
+            construct = f'{rel}::{(cls_name + ".") if cls_name else ""}{fn.name}'
+            seen = set()
+            for v, (c, attrs) in info.items():
+                n += 1
+                bad = [(x, st) for x, st in reads if x.value.id == v and (v, x.attr) not in seen]
+                if not bad:
+                    rep.ok(rid, construct, f'attributes read from {v} = {c.name}(..)')
+                for x, st in bad:
+                    if (v, x.attr) in seen:
+                        continue
+                    seen.add((v, x.attr))
+                    rep.fail(rid, construct, f'{v}.{x.attr} read from {c.name}(..)',
+                             f'`{short(st, 70)}` reads `{v}.{x.attr}`, which neither {c.name} nor its constructor call '
+                             'defines and which is not assigned on every path before this statement (a set-up method '
+                             'assigns it on some of its branches only): AttributeError -> 500 for the requests that '
+                             'take the other branch', x)
+    rep.extra['objects_built_in_handlers'] = n
+
+
 def analyse(rep: Report) -> None:
     rep.explanation = (
         'Interprocedural exception-escape analysis from every routed (handler, verb) entry point '
@@ -1489,6 +1719,7 @@ def analyse(rep: Report) -> None:
     rep.rule('R16.9', 'session values are stored in the type their readers compute with', floor=1)
     rep.rule('R16.12', 'loops that read until a sentinel end at the end of the input', floor=1)
     rep.rule('R16.13', 'parser loops driven by a 32-bit count from the input consume input that fails at its end', floor=3)
+    rep.rule('R16.14', 'attributes read from an object built in the same handler function exist on every path', floor=3)
     idx = Index(rep.repo)
     cg = CallGraph(idx)
     validated_ok = r16_8(rep, idx)
@@ -1503,6 +1734,7 @@ def analyse(rep: Report) -> None:
     r16_11(rep)
     r16_12(rep)
     r16_13(rep, idx)
+    r16_14(rep, idx)
     rep.assumptions = [
         'call edges are the resolved ones (CHA, typed locals, proxies); template calls are added '
         'for the three timeline generators; unresolved dynamic calls propagate nothing',
